@@ -33,14 +33,41 @@ ClipOf(c, id)  == c.clips[ClipPos(c, id)]
 Evaluated(c)   == Range(c.porder) \cap Range(c.aorder)          \* "the clips present in both inputs"
 RECURSIVE SumSeq(_)
 SumSeq(s) == IF s = <<>> THEN 0 ELSE Head(s) + SumSeq(Tail(s))
-\* the annotation's class within the vocabulary, 0 when it has none
-ClassOf(a, V) == IF a.cls \in 1..V THEN a.cls ELSE 0
+(* Tags.  Classic cases: the vocabulary is V = c.vocab tags of one term with distinct values; an annotation names its   *)
+(* class (cls), a prediction gives a score vector (sc).  Term cases (c.voc present): tags are ids into a fixed table    *)
+(*      id   1          2          3          4                                                                        *)
+(*      term T1         T2         T3         T1        T1, T2: different terms with the SAME LABEL;                     *)
+(*      value x         x          x          y         T1, T3: different terms with the SAME NAME                       *)
+(* c.voc is the vocabulary (distinct ids, in order), an annotation carries tag ids (a.tags), a prediction pairs         *)
+(* <<tag id, quarters>> (p.pt).  A tag is a (term, value) pair: ids 1, 2, 3 are three different tags.                   *)
+NumClasses(c) == c.vocab
+InVoc(c, t)   == "voc" \in DOMAIN c /\ \E k \in DOMAIN c.voc : c.voc[k] = t
+VocIndex(c, t) == CHOOSE k \in DOMAIN c.voc : c.voc[k] = t
+\* the annotation's class within the vocabulary (its first tag that is in the vocabulary), 0 when it has none
+ClassOf(a, c) ==
+    IF "tags" \in DOMAIN a
+    THEN LET hits == {i \in DOMAIN a.tags : InVoc(c, a.tags[i])}
+         IN  IF hits = {} THEN 0 ELSE VocIndex(c, a.tags[SetMin(hits)])
+    ELSE IF a.cls \in 1..NumClasses(c) THEN a.cls ELSE 0
+\* the score (quarters) the prediction gives to every class of the vocabulary
+ScoreVec(p, c) ==
+    IF "pt" \in DOMAIN p
+    THEN [k \in 1..NumClasses(c) |-> SumSeq([i \in DOMAIN p.pt |-> IF p.pt[i][1] = c.voc[k] THEN p.pt[i][2] ELSE 0])]
+    ELSE [k \in 1..NumClasses(c) |-> IF k <= Len(p.sc) THEN p.sc[k] ELSE 0]
 \* probability (in quarters) the prediction gives to the annotation's class; for an annotation without a class
 \* of the vocabulary the remaining mass 1 - sum (the "none" class of single-label scoring)
-ExpScore(p, a, V) == IF ClassOf(a, V) = 0 THEN <<4 - SumSeq(p.sc), 4>> ELSE <<p.sc[ClassOf(a, V)], 4>>
-\* closed boxes share a point (touching counts: the statement says "overlap", C12 calls touching an overlap)
+ExpScore(p, a, c) == IF ClassOf(a, c) = 0 THEN <<4 - SumSeq(ScoreVec(p, c)), 4>> ELSE <<ScoreVec(p, c)[ClassOf(a, c)], 4>>
+(* Lattice geometries are rectilinear regions (Affinity!Rectilinear: boxes, polygons and multi-polygons bounded by    *)
+(* axis-parallel rectangles, interior rings included).  Two regions certainly do not overlap when their bounding boxes *)
+(* do not meet or one lies strictly inside an interior ring of the other; touching counts as overlapping (the statement *)
+(* says "overlap", C12 calls touching an overlap), and every other configuration is accepted as overlapping.            *)
 BoxesMeet(x, y) == Max(x[1], y[1]) <= Min(x[3], y[3]) /\ Max(x[2], y[2]) <= Min(x[4], y[4])
-BoxAff(p, a)    == Aff!BoxIoU(Some(p.g).coordinates, Some(a.g).coordinates)
+RegionBox(g) == LET S == Range(Aff!Shells(g)) IN
+    <<SetMin({b[1] : b \in S}), SetMin({b[2] : b \in S}), SetMax({b[3] : b \in S}), SetMax({b[4] : b \in S})>>
+InsideHole(x, y) == LET b == RegionBox(x) IN
+    \E h \in Range(Aff!Holes(y)) : h[1] < b[1] /\ b[3] < h[3] /\ h[2] < b[2] /\ b[4] < h[4]
+RegionsMeet(x, y) == BoxesMeet(RegionBox(x), RegionBox(y)) /\ ~InsideHole(x, y) /\ ~InsideHole(y, x)
+BoxAff(p, a)    == Aff!RectIoU(Some(p.g), Some(a.g))
 
 (* ---------------- clauses on one clip evaluation ---------------- *)
 (* P, A: the clip's predicted / annotated events; M: its matches.  Eq(v, pq), Zero(v): how a reported number    *)
@@ -54,7 +81,7 @@ UnpairedZeroOf(M, Zero(_)) == \A k \in DOMAIN M : ~IsPair(M[k]) => Zero(M[k].a) 
 LatOverlapOf(M, P, A) ==
     InRange(M, P, A) => \A k \in DOMAIN M : IsPair(M[k]) =>
         LET p == P[Some(M[k].s)]  a == A[Some(M[k].t)]
-        IN  HasGeom(p) /\ HasGeom(a) /\ BoxesMeet(Some(p.g).coordinates, Some(a.g).coordinates)
+        IN  HasGeom(p) /\ HasGeom(a) /\ RegionsMeet(Some(p.g), Some(a.g))
 LatAffinityOf(M, P, A, Eq(_, _)) ==
     InRange(M, P, A) => \A k \in DOMAIN M : IsPair(M[k]) =>
         LET p == P[Some(M[k].s)]  a == A[Some(M[k].t)]
@@ -84,7 +111,7 @@ Clauses == {"Returns", "ClipsAreIntersection", "EveryEventOnce", "PairedOnlyIfOv
 HoldsClip(cl, o, r, k) ==
     LET c == o.in  e == r.clips[k]  M == e.m IN
     (e.id \in Evaluated(c)) =>
-    LET x == ClipOf(c, e.id)  P == x.preds  A == x.anns  V == c.vocab
+    LET x == ClipOf(c, e.id)  P == x.preds  A == x.anns  V == c
         F == r.aff[ClipPos(c, e.id)]                     \* observed affinities [prediction][annotation]
     IN
     CASE cl = "EveryEventOnce" -> EveryEventOnceOf(M, P, A)
